@@ -226,6 +226,10 @@ _BENIGN = [
     # formed by search_sorted() but the loop body never runs.
     (re.compile(r"ubsan:member access within null pointer of type 'const struct _cffi_"),
      re.compile(r'parse_c_type\.c:')),
+    # cdl_4bytes(): '(signed char) << 24' of a negative byte when decoding the
+    # big-endian words of an out-of-line module; two's-complement result is what
+    # every supported compiler gives and what the decoder expects.
+    (re.compile(r"ubsan:left shift of negative value"), re.compile(r'cdlopen\.c:')),
 ]
 
 
